@@ -177,6 +177,10 @@ extern ssize_t mpt_encode_cobs(MPT_STRUCT(encode_state) *info, const struct iove
 	info->done = left - code;
 	info->scratch = code;
 	
+	/* no progress without further target space */
+	if (!(len = base->iov_len - len)) {
+		return MPT_ERROR(MissingBuffer);
+	}
 	/* return consumed size */
-	return base->iov_len - len;
+	return len;
 }
